@@ -234,6 +234,14 @@ def make_handler_class(scn, side):
             if hook == 'reconnect':
                 self._ev('reconnect_call', where='on_keepalive_timeout')
                 await rsocket.reconnect()
+            elif hook == 'close':
+                # the application gives the connection up: close() called from inside the notification
+                self._ev('close_call', where='on_keepalive_timeout')
+                try:
+                    await rsocket.close()
+                except Exception as e:
+                    self._ev('close_raised', exc=repr(e)[:200])
+                self._ev('close_returned')
 
         async def on_metadata_push(self, payload):
             d, m = A.pl(payload)
